@@ -42,7 +42,17 @@ def norm(test, canon):
         return ("isinf", canon(test.args[0]))
     if isinstance(test, ast.Call) and isinstance(test.func, ast.Name) and test.func.id == "isinstance" and len(test.args) == 2:
         return ("isinstance", canon(test.args[0]), canon(test.args[1]))
-    return ("truth", canon(test))
+    txt = canon(test)
+    if isinstance(test, ast.Name) and isinstance(txt, str) and txt != test.id and any(c in txt for c in "(<>=! "):
+        # a boolean temporary whose canonical form is the predicate it was assigned (`inf = isinf(self.c)` ... `if inf:`)
+        try:
+            sub_ = ast.parse(txt, mode="eval").body
+        except SyntaxError:
+            sub_ = None
+        if isinstance(sub_, (ast.Compare, ast.BoolOp)) or (isinstance(sub_, ast.UnaryOp) and isinstance(sub_.op, ast.Not)) or \
+                (isinstance(sub_, ast.Call) and isinstance(sub_.func, (ast.Name, ast.Attribute)) and (sub_.func.id if isinstance(sub_.func, ast.Name) else sub_.func.attr) in ("isinf", "isinstance")):
+            return norm(sub_, lambda e: ast.unparse(e))
+    return ("truth", txt)
 
 
 def _is_const(n, val):
